@@ -20,6 +20,8 @@ pub mod layout {
     mod rayon {
         pub use crate::seams::shim_rayon::*;
     }
+    // std's LocalKey<RefCell<T>>/LocalKey<Cell<T>> conveniences for the engine's thread locals
+    use crate::seams::{LocalKeyCellExt as _, LocalKeyRefCellExt as _};
     macro_rules! println {
         () => { crate::seams::emit(format_args!(""), true) };
         ($($t:tt)*) => { crate::seams::emit(format_args!($($t)*), true) };
@@ -44,7 +46,7 @@ pub mod layout {
     }
     // compile-time crate paths (`env!("CARGO_MANIFEST_DIR")`) name the repository crate: build.rs
     // overrides that variable for this compilation
-    include!(concat!(env!("OUT_DIR"), "/generate_layout.rs"));
+    include!(concat!(env!("OUT_DIR"), "/layout/generate_layout.rs"));
     pub fn __gensim_entry() {
         super::MainReturn::finish(main());
         crate::seams::main_returned();
@@ -67,6 +69,8 @@ pub mod likely {
     mod rayon {
         pub use crate::seams::shim_rayon::*;
     }
+    // std's LocalKey<RefCell<T>>/LocalKey<Cell<T>> conveniences for the engine's thread locals
+    use crate::seams::{LocalKeyCellExt as _, LocalKeyRefCellExt as _};
     macro_rules! println {
         () => { crate::seams::emit(format_args!(""), true) };
         ($($t:tt)*) => { crate::seams::emit(format_args!($($t)*), true) };
@@ -91,7 +95,7 @@ pub mod likely {
     }
     // compile-time crate paths (`env!("CARGO_MANIFEST_DIR")`) name the repository crate: build.rs
     // overrides that variable for this compilation
-    include!(concat!(env!("OUT_DIR"), "/generate_likelysubtags.rs"));
+    include!(concat!(env!("OUT_DIR"), "/likely/generate_likelysubtags.rs"));
     pub fn __gensim_entry() {
         super::MainReturn::finish(main());
         crate::seams::main_returned();
